@@ -134,11 +134,23 @@ def run(ck, facts):
     for f in mac.fn_list:
         if "hir" not in f:
             continue
+        fdefs_ = None
         for n in C.walk(C.fn_body(f)):
             if n.get("k") == "call" and (C.callee(n) or "").endswith("AttributeInfo::extract"):
-                for x in C.walk(n["a"][0]):
-                    if x.get("k") == "field" and x.get("n") == "attrs":
-                        strips.add((x.get("bty") or "").replace("&", "").replace("mut ", "").strip())
+                todo_, seen_ = [n["a"][0]], set()
+                while todo_:
+                    e_ = todo_.pop()
+                    for x in C.walk(e_):
+                        if x.get("k") == "field" and x.get("n") == "attrs":
+                            strips.add((x.get("bty") or "").replace("&", "").replace("mut ", "").strip())
+                        elif x.get("k") == "local" and x.get("id") not in seen_:
+                            # the attribute list may be picked first (`let attrs = match arg { Receiver(r) => &mut r.attrs, Typed(t) => &mut t.attrs }`)
+                            seen_.add(x.get("id"))
+                            if fdefs_ is None:
+                                fdefs_ = dict(flow.defs_of(f))
+                            d_ = fdefs_.get(x.get("id"))
+                            if d_ and d_[0] == "expr" and d_[1] is not None:
+                                todo_.append(d_[1])
     # ItemMod is read through a local in Module::from_syn: make sure it is in the read set when the macro strips it
     ck.expect(len(reads) >= 9, "R2", "ast/read-kinds", str(sorted(k.split("::")[-1] for k in reads)), "only %d attribute-reading node kinds found in core::ast (9 counted)" % len(reads), None)
     for kind, where in sorted(reads.items()):
